@@ -5,7 +5,7 @@
    (Spec/Pbkdf2S.v) over the HMAC-SHA256 oracle. *)
 From Coq Require Import String.
 From V Require Import Base.Prelude Base.Ints Base.Disp Model.Mnemonic Model.Shamir Spec.Pbkdf2S
-  Generated.Wordlists.
+  Spec.ShamirSplitS Generated.Wordlists.
 Open Scope string_scope.
 Open Scope Z_scope.
 
@@ -66,7 +66,8 @@ Definition dispatch (H : oracle) (fn : list Z) (args : list val) : val :=
   let sha := o_sha256 H in
   let hm := o_hmac_sha256 H in
   let fast := fn_is "encrypt_fast" fn || fn_is "decrypt_fast" fn || fn_is "generate_shares_fast" fn ||
-              fn_is "recover_mnemonic_fast" fn || fn_is "recover_shares_fast" fn in
+              fn_is "recover_mnemonic_fast" fn || fn_is "recover_shares_fast" fn ||
+              fn_is "crypt_fast" fn || fn_is "decrypt_ss_fast" fn in
   let kdf := kdf_of H fast in
   if fn_is "rs1024_polymod" fn then
     match args with
@@ -135,6 +136,52 @@ Definition dispatch (H : oracle) (fn : list Z) (args : list val) : val :=
     | [VL l; VB pass] =>
         match args_shares l with
         | Some rs => vres_b (shares <- rs ;; ss <- shareset_init shares ;; recover hm kdf ss pass)
+        | None => bad_args end
+    | _ => bad_args end
+  (* ---- deepening round: glue that was only reached through larger entry points ---- *)
+  else if fn_is "digest" fn then
+    match args with
+    | [VB random; VB secret] => VB (digest hm random secret)
+    | _ => bad_args end
+  else if fn_is "shareset_fields" fn then        (* ShareSet.__init__: the attributes it sets *)
+    match args with
+    | [VL l] =>
+        match args_shares l with
+        | Some rs => vres (fun ss => VL [VI (ss_id ss); VB (ss_salt ss); VI (ss_exp ss); VI (ss_gt ss);
+                                         VI (ss_gc ss); VI (ss_bits ss); VI (zlen (ss_shares ss))])
+                          (shares <- rs ;; shareset_init shares)
+        | None => bad_args end
+    | _ => bad_args end
+  else if fn_is "decrypt_ss_fast" fn then        (* ShareSet(shares).decrypt(payload, passphrase) *)
+    match args with
+    | [VL l; VB p; VB pass] =>
+        match args_shares l with
+        | Some rs => vres_b (shares <- rs ;; ss <- shareset_init shares ;; decrypt kdf ss p pass)
+        | None => bad_args end
+    | _ => bad_args end
+  else if fn_is "crypt_fast" fn then             (* ShareSet._crypt with an arbitrary round list *)
+    match args with
+    | [VB p; VI id; VI e; VB pass; VB idxs] =>
+        if small e then vres_b (crypt kdf p id e pass idxs) else bad_args
+    | _ => bad_args end
+  else if fn_is "share_reencode" fn then         (* Share.parse(text).mnemonic() *)
+    match args with
+    | [t] => match arg_text t with
+             | Some m => vres_b (s <- share_parse slip39_words m ;; share_mnemonic slip39_words s)
+             | None => bad_args end
+    | _ => bad_args end
+  else if fn_is "split_with" fn then             (* split_secret with its random draws and digest fixed *)
+    match args with
+    | [VL l; VB ds; VB secret; VI k; VI n] =>
+        match args_points l with
+        | Some sd =>
+            if small k && small n then
+              if (2 <=? k) && (k <=? n) && (n <=? 16) &&
+                 ((zlen secret =? 16) || (zlen secret =? 32)) && (zlen ds =? zlen secret) &&
+                 beq (map fst sd) (zrange 0 (Z.to_nat (k - 2))) &&
+                 forallb (fun p => zlen (snd p) =? zlen secret) sd
+              then vres vpoints (split_with sd ds secret k n) else VErr
+            else bad_args
         | None => bad_args end
     | _ => bad_args end
   else bad_args.
